@@ -82,6 +82,16 @@ PROPS["C14"] = dict(
     assumptions=["the harness does not own the schedule; GOMAXPROCS and yields are varied", "redundant Unlock on an unlocked wallet may fail (unspecified by the properties)"],
 )
 
+PROPS["C06"] = dict(
+    pkgs=[KS], race_pkgs=[KS], level="exploration", death_is_violation=True, engine="rapid-harness+race-detector",
+    quick=dict(checks=480, shards=12, timeout=500, race_checks=320, race_shards=8),
+    thorough=dict(checks=16000, shards=16, timeout=2400, race_checks=12000, race_shards=16),
+    technique="property-based testing: rapid-generated issuance histories vs. reference model of ordinals; generated concurrent issuance bursts under the race detector with a multiset oracle on ordinals",
+    level_text="Sequential histories are compared with a model (new key, ordinal = index in the owning keystore, consecutive, stable across restart/import); concurrent bursts must yield per keystore exactly the ordinals {0..n-1} with distinct keys. Exploration; interleavings inside the wallet are sampled.",
+    level_note="Trusted: reference model; race detector. The keeper-side clause (plot file names recognised after restart) is exercised in the capacity harness as part of this check when available.",
+    assumptions=["a keystore deleted and re-created from the same seed legitimately re-issues the same keys (HD derivation); 'never returned before' is judged per keystore lifetime"],
+)
+
 META = dict(
     na_default="check not built yet in this session (work in progress; see DESIGN.md §4) - not a claim that the technique cannot apply",
     hooks=dict(guard="verif", enable="go test -tags verif (the driver ./check always builds with -tags verif through -overlay/-modfile, see DESIGN.md §2.2)",
